@@ -28,6 +28,8 @@ type Config struct {
 	// user action on the server side: "approve", "cancel", "never"
 	User   string        `json:"user"`
 	UserAt time.Duration `json:"user_at"`
+	// UserAfter > 0: the user acts after that many chooser steps instead (lands inside the handshake)
+	UserAfter int `json:"user_after"`
 	// SHIP ids: what each side has stored for the other: "none", "right", "wrong"
 	IDSofC string `json:"id_s_of_c"`
 	IDCofS string `json:"id_c_of_s"`
@@ -56,6 +58,8 @@ func stored(kind, right string) string {
 		return right
 	case "wrong":
 		return "WRONG-" + right
+	case "case":
+		return strings.ToLower(right) // differs from the presented id only in case
 	}
 	return ""
 }
@@ -84,17 +88,19 @@ type outcome struct {
 }
 
 type result struct {
-	Evs       []simkit.Ev
-	S, C      outcome
-	Choices   []string
-	Sig       string // interleaving signature
-	Timely    bool   // stayed timely (no timer-driven frame while a delivery was enabled)
-	WantsToS  map[string]string
-	WantsToC  map[string]string
-	SentByS   []string
-	SentByC   []string
-	BubbleErr string
-	Horizon   bool
+	Evs        []simkit.Ev
+	S, C       outcome
+	Choices    []string
+	Sig        string // interleaving signature
+	Timely     bool   // stayed timely (no timer-driven frame while a delivery was enabled)
+	UserState  int    // handshake state of the server side when the user acted (-1: never)
+	UserStateC int    // state of the client side at that moment
+	WantsToS   map[string]string
+	WantsToC   map[string]string
+	SentByS    []string
+	SentByC    []string
+	BubbleErr  string
+	Horizon    bool
 }
 
 var errPeerGone = errors.New("peer closed the connection")
@@ -171,8 +177,11 @@ func run(t *testing.T, cfg *Config, wd *vc.Watchdog) (res result) {
 			call("terr", func() { to.Conn.ReportConnectionError(errPeerGone) })
 		}
 		userDone := cfg.User == "never"
+		res.UserState = -1
 		doUser := func() {
 			userDone = true
+			res.UserState = int(S.Conn.VerifState())
+			res.UserStateC = int(C.Conn.VerifState())
 			switch cfg.User {
 			case "approve":
 				l.Add("S", "approve", int(S.Conn.VerifState()), false, "")
@@ -277,7 +286,7 @@ func run(t *testing.T, cfg *Config, wd *vc.Watchdog) (res result) {
 				doCause(c)
 				continue
 			}
-			if !userDone && now() >= cfg.UserAt {
+			if !userDone && (cfg.UserAfter == 0 && now() >= cfg.UserAt || cfg.UserAfter > 0 && steps > cfg.UserAfter) {
 				choose(cfg.User)
 				doUser()
 				continue
@@ -310,7 +319,7 @@ func run(t *testing.T, cfg *Config, wd *vc.Watchdog) (res result) {
 			}
 			// wait for library activity (a timer firing) or the next scheduled harness action
 			wait := 200 * time.Second
-			if !userDone && cfg.UserAt-now() < wait {
+			if !userDone && cfg.UserAfter == 0 && cfg.UserAt-now() < wait {
 				wait = cfg.UserAt - now()
 			}
 			if causeDue >= 0 && causeDue-now() < wait {
